@@ -3,9 +3,10 @@
 //! MiB, once in a while more than the 16 MiB queue limit in one transaction), with random pauses.
 //! Judged (a per-run watchdog turns a blocked call into class `hang`):
 //!   commit-error                 a commit returned an error
-//!   not-logged-without-activity  after the clients stopped, with no further call into the library, a copy of
-//!                                the directory (taken while the handle is alive) must, within 8 s, contain
-//!                                every commit - i.e. every commit reached the write-ahead log on its own
+//!   not-logged-without-activity  (half of the runs) the clients run in a child process which, once they are done,
+//!                                makes no further call; after a quiet period of 0.3-2.5 s it is killed: the
+//!                                directory is then a crash image and must hold every commit - every commit
+//!                                reached the write-ahead log on its own
 //!   drop-lost-data               after dropping the handle, a reopen shows every commit
 //! Final state vs the model's specification function (case line kind 5, as for C05).
 use crate::{prng::Rng, util::Out};
@@ -34,15 +35,113 @@ fn read_versions(db: &Db) -> Vec<u64> {
 	(0..NKEYS).map(|i| db.get(0, &key(i)).ok().flatten().map(|b| u64::from_le_bytes(b[0..8].try_into().unwrap())).unwrap_or(0)).collect()
 }
 
-fn copy_dir(from: &std::path::Path, to: &std::path::Path) {
-	let _ = std::fs::remove_dir_all(to);
-	std::fs::create_dir_all(to).unwrap();
-	if let Ok(rd) = std::fs::read_dir(from) {
-		for e in rd.flatten() {
-			if e.file_name() != "lock" {
-				let _ = std::fs::copy(e.path(), to.join(e.file_name()));
+struct Plan {
+	keys: Vec<usize>,
+	len: usize,
+	pause_us: u64,
+}
+
+struct Scenario {
+	nclients: usize,
+	huge: bool,
+	always_flush: bool,
+	plan: Vec<Plan>,
+}
+
+fn scenario(seed: u64) -> Scenario {
+	let mut rng = Rng::new(seed ^ 0x5ce);
+	let nclients = rng.range(1, 3) as usize;
+	let ntx = rng.range(20, 160) as usize;
+	let huge = rng.chance(1, 6);
+	let always_flush = rng.chance(1, 3);
+	let mut plan = Vec::new();
+	for n in 0..ntx {
+		let nk = match rng.below(10) {
+			0 => 0,
+			1..=6 => rng.range(1, 4) as usize,
+			_ => rng.range(4, 10) as usize,
+		};
+		let len = match rng.below(12) {
+			0..=5 => rng.range(16, 200) as usize,
+			6..=8 => rng.range(1000, 40000) as usize,
+			9..=10 => rng.range(100_000, 400_000) as usize,
+			_ => rng.range(1_000_000, 3_000_000) as usize,
+		};
+		let (nk, len) = if huge && n == ntx / 2 { (6, 3_000_000) } else { (nk, len) };
+		let keys: Vec<usize> = if huge && n == ntx / 2 { (0..6).collect() } else { (0..nk).map(|_| rng.below(NKEYS as u64) as usize).collect() };
+		plan.push(Plan { keys, len, pause_us: if rng.chance(1, 3) { rng.range(0, 2000) } else { 0 } });
+	}
+	Scenario { nclients, huge, always_flush, plan }
+}
+
+fn options(dir: &std::path::Path, sc: &Scenario) -> Options {
+	let mut opts = Options::with_columns(dir, 1);
+	opts.columns[0] = ColumnOptions::default();
+	opts.always_flush = sc.always_flush;
+	opts
+}
+
+/// run the clients against an open handle; returns the commit list (version, keys) in commit order
+fn run_clients(db: &Arc<Db>, sc: Scenario) -> (Vec<(u64, Vec<usize>)>, Option<String>, u64) {
+	let nclients = sc.nclients;
+	let plan = Arc::new(sc.plan);
+	let next = Arc::new(Mutex::new((0usize, Vec::<(u64, Vec<usize>)>::new())));
+	let failure: Arc<Mutex<Option<String>>> = Arc::new(Mutex::new(None));
+	let bytes_total = Arc::new(AtomicU64::new(0));
+	let mut clients = Vec::new();
+	for _ in 0..nclients {
+		let (db, plan, next, failure, bytes_total) = (db.clone(), plan.clone(), next.clone(), failure.clone(), bytes_total.clone());
+		clients.push(std::thread::spawn(move || loop {
+			// the order of versions is the order of the commit calls (calls of different clients are
+			// serialised here so that "last writer" is well defined)
+			let mut g = next.lock().unwrap();
+			let n = g.0;
+			if n >= plan.len() {
+				break
 			}
-		}
+			g.0 += 1;
+			let v = n as u64 + 1;
+			let p = &plan[n];
+			let tx: Vec<(u8, Vec<u8>, Option<Vec<u8>>)> = p.keys.iter().map(|i| (0u8, key(*i), Some(value(v, *i, p.len)))).collect();
+			bytes_total.fetch_add((p.keys.len() * p.len) as u64, Ordering::Relaxed);
+			if let Err(e) = db.commit(tx) {
+				failure.lock().unwrap().get_or_insert(format!("commit-error {e:?}"));
+				break
+			}
+			g.1.push((v, p.keys.clone()));
+			drop(g);
+			if p.pause_us > 0 {
+				std::thread::sleep(std::time::Duration::from_micros(p.pause_us));
+			}
+		}));
+	}
+	for c in clients {
+		let _ = c.join();
+	}
+	let list = next.lock().unwrap().1.clone();
+	let f = failure.lock().unwrap().take();
+	(list, f, bytes_total.load(Ordering::Relaxed))
+}
+
+/// child process: open, run the clients, report the commit list, then do NOTHING until killed
+pub fn child_main(args: &[String]) -> i32 {
+	let dir = std::path::PathBuf::from(&args[0]);
+	let seed: u64 = args[1].parse().unwrap();
+	let sc = scenario(seed);
+	let db = Arc::new(Db::open_or_create(&options(&dir, &sc)).expect("create"));
+	let (list, f, bytes) = run_clients(&db, sc);
+	use std::io::Write;
+	let mut o = std::io::stdout();
+	for (v, ks) in &list {
+		let _ = writeln!(o, "c {v} {}", ks.iter().map(|k| k.to_string()).collect::<Vec<_>>().join(" "));
+	}
+	if let Some(f) = f {
+		let _ = writeln!(o, "f {f}");
+	}
+	let _ = writeln!(o, "done {bytes}");
+	let _ = o.flush();
+	loop {
+		std::thread::sleep(std::time::Duration::from_secs(3600));
 	}
 }
 
@@ -52,139 +151,111 @@ pub fn main(args: &[String]) -> i32 {
 	let mut out = Out::new(&args[2]);
 	let root = std::path::PathBuf::from(&args[2]);
 	let dir = root.join("db");
-	let img = root.join("img");
 	let mut rng = Rng::new(seed ^ 0xC15);
 	let mut oracle = String::new();
 	let mut dist: BTreeMap<String, u64> = BTreeMap::new();
 	let mut nontrivial = 0u64;
 	for _ in 0..count {
 		let _ = std::fs::remove_dir_all(&dir);
-		let nclients = rng.range(1, 3) as usize;
-		let ntx = rng.range(20, 160) as usize;
-		let huge = rng.chance(1, 6);
-		let mut opts = Options::with_columns(&dir, 1);
-		opts.columns[0] = ColumnOptions::default();
-		opts.always_flush = rng.chance(1, 3);
-		crate::util::watch_begin(&out, &[15, seed, ntx as u64, nclients as u64, huge as u64]);
-		let db = Arc::new(Db::open_or_create(&opts).expect("create"));
-		// the plan: every transaction has a global version; clients take them in order from a shared counter,
-		// the commit order is recorded under the same mutex that orders the commit calls
-		struct Plan {
-			keys: Vec<usize>,
-			len: usize,
-			pause_us: u64,
-		}
-		let mut plan = Vec::new();
-		for n in 0..ntx {
-			let nk = match rng.below(10) {
-				0 => 0,
-				1..=6 => rng.range(1, 4) as usize,
-				_ => rng.range(4, 10) as usize,
-			};
-			let len = match rng.below(12) {
-				0..=5 => rng.range(16, 200) as usize,
-				6..=8 => rng.range(1000, 40000) as usize,
-				9..=10 => rng.range(100_000, 400_000) as usize,
-				_ => rng.range(1_000_000, 3_000_000) as usize,
-			};
-			let (nk, len) = if huge && n == ntx / 2 { (6, 3_000_000) } else { (nk, len) };
-			let keys: Vec<usize> = (0..nk).map(|_| rng.below(NKEYS as u64) as usize).collect();
-			plan.push(Plan { keys, len, pause_us: if rng.chance(1, 3) { rng.range(0, 2000) } else { 0 } });
-		}
-		let plan = Arc::new(plan);
-		let next = Arc::new(Mutex::new((0usize, Vec::<(u64, Vec<usize>)>::new()))); // next plan index, commit list
-		let failure: Arc<Mutex<Option<String>>> = Arc::new(Mutex::new(None));
-		let bytes_total = Arc::new(AtomicU64::new(0));
-		let mut clients = Vec::new();
-		for _ in 0..nclients {
-			let (db, plan, next, failure, bytes_total) = (db.clone(), plan.clone(), next.clone(), failure.clone(), bytes_total.clone());
-			clients.push(std::thread::spawn(move || loop {
-				// the order of versions is the order of the commit calls (one at a time per key set; calls of
-				// different clients are serialised here so that "last writer" is well defined)
-				let mut g = next.lock().unwrap();
-				let n = g.0;
-				if n >= plan.len() {
-					break
+		let sseed = rng.next();
+		let sc = scenario(sseed);
+		let (nclients, huge, ntx) = (sc.nclients, sc.huge, sc.plan.len());
+		let opts = options(&dir, &sc);
+		let kill_mode = rng.chance(1, 2);
+		crate::util::watch_begin(&out, &[15, sseed, ntx as u64, nclients as u64, huge as u64, kill_mode as u64]);
+		let mut verdict: Result<(), String> = Ok(());
+		let commit_list: Vec<(u64, Vec<usize>)>;
+		let bytes: u64;
+		if kill_mode {
+			// the clients run in a child process; once they are done the child makes no further call; after a
+			// quiet period it is killed: the directory is then a crash image that must hold every commit
+			use std::io::BufRead;
+			let exe = std::env::current_exe().unwrap();
+			let mut ch = std::process::Command::new(exe)
+				.arg("c15child")
+				.arg(&dir)
+				.arg(sseed.to_string())
+				.stdin(std::process::Stdio::null())
+				.stdout(std::process::Stdio::piped())
+				.stderr(std::process::Stdio::null())
+				.spawn()
+				.expect("spawn child");
+			let rd = std::io::BufReader::new(ch.stdout.take().unwrap());
+			let mut list = Vec::new();
+			let mut b = 0u64;
+			let mut finished = false;
+			for line in rd.lines() {
+				let line = line.unwrap_or_default();
+				let mut it = line.split_whitespace();
+				match it.next() {
+					Some("c") => {
+						let v: u64 = it.next().unwrap().parse().unwrap();
+						list.push((v, it.map(|x| x.parse().unwrap()).collect()));
+					},
+					Some("f") => verdict = Err(line[2..].to_string()),
+					Some("done") => {
+						b = it.next().unwrap().parse().unwrap();
+						finished = true;
+						break
+					},
+					_ => (),
 				}
-				g.0 += 1;
-				let v = n as u64 + 1;
-				let p = &plan[n];
-				// a key may occur twice in a transaction: the later one wins, both carry the same version
-				let tx: Vec<(u8, Vec<u8>, Option<Vec<u8>>)> = p.keys.iter().map(|i| (0u8, key(*i), Some(value(v, *i, p.len)))).collect();
-				bytes_total.fetch_add((p.keys.len() * p.len) as u64, Ordering::Relaxed);
-				let r = db.commit(tx);
-				if let Err(e) = r {
-					failure.lock().unwrap().get_or_insert(format!("commit-error {e:?}"));
-					break
-				}
-				g.1.push((v, p.keys.clone()));
-				drop(g);
-				if p.pause_us > 0 {
-					std::thread::sleep(std::time::Duration::from_micros(p.pause_us));
-				}
-			}));
+			}
+			if !finished && verdict.is_ok() {
+				verdict = Err("child-died the client process ended before reporting".into());
+			}
+			let quiet = *rng.pick(&[300u64, 1000, 2500]);
+			std::thread::sleep(std::time::Duration::from_millis(quiet));
+			let _ = ch.kill();
+			let _ = ch.wait();
+			*dist.entry("runs-killed-after-a-quiet-period".into()).or_insert(0) += 1;
+			commit_list = list;
+			bytes = b;
+		} else {
+			let db = Arc::new(Db::open_or_create(&opts).expect("create"));
+			let (list, f, b) = run_clients(&db, sc);
+			if let Some(f) = f {
+				verdict = Err(f);
+			}
+			let t0 = std::time::Instant::now();
+			drop(Arc::try_unwrap(db).ok().expect("sole owner"));
+			*dist.entry("ms-drop".into()).or_insert(0) += t0.elapsed().as_millis() as u64;
+			commit_list = list;
+			bytes = b;
 		}
-		for c in clients {
-			let _ = c.join();
-		}
-		let commit_list = next.lock().unwrap().1.clone();
-		let mut verdict: Result<(), String> = match failure.lock().unwrap().take() {
-			Some(f) => Err(f),
-			None => Ok(()),
-		};
-		// what every key must hold at the end
+		crate::util::watch_end();
 		let mut want = vec![0u64; NKEYS];
 		for (v, ks) in &commit_list {
 			for k in ks {
 				want[*k] = *v;
 			}
 		}
-		// no further activity: the commits must reach the log on their own
-		if verdict.is_ok() {
-			let mut logged = false;
-			let mut waited = 0u64;
-			for ms in [50u64, 150, 300, 500, 1000, 2000, 4000] {
-				std::thread::sleep(std::time::Duration::from_millis(ms));
-				waited += ms;
-				copy_dir(&dir, &img);
-				let mut q = opts.clone();
-				q.path = img.clone();
-				q.with_background_thread = false;
-				if let Ok(d) = Db::open(&q) {
-					if read_versions(&d) == want {
-						logged = true;
-					}
-				}
-				if logged {
-					break
-				}
-			}
-			*dist.entry("ms-until-everything-was-logged".into()).or_insert(0) += waited;
-			if !logged {
-				verdict = Err(format!("not-logged-without-activity {} ms after the last commit returned, a copy of the directory still misses commits", waited));
-			}
-		}
-		let t0 = std::time::Instant::now();
-		drop(Arc::try_unwrap(db).ok().expect("sole owner"));
-		*dist.entry("ms-drop".into()).or_insert(0) += t0.elapsed().as_millis() as u64;
-		crate::util::watch_end();
 		let mut q = opts.clone();
 		q.with_background_thread = false;
-		let final_versions = match Db::open(&q) {
-			Ok(d) => read_versions(&d),
-			Err(e) => {
+		let final_versions = match std::panic::catch_unwind(std::panic::AssertUnwindSafe(|| Db::open(&q).map(|d| read_versions(&d)))) {
+			Ok(Ok(v)) => v,
+			Ok(Err(e)) => {
 				if verdict.is_ok() {
 					verdict = Err(format!("reopen-failed {e:?}"));
 				}
 				vec![0xeeee; NKEYS]
 			},
+			Err(_) => {
+				if verdict.is_ok() {
+					verdict = Err("reopen-panic opening or reading the directory panicked".into());
+				}
+				vec![0xeeee; NKEYS]
+			},
 		};
 		if verdict.is_ok() && final_versions != want {
-			verdict = Err("drop-lost-data after the handle was dropped a reopen does not show every commit".to_string());
+			verdict = Err(if kill_mode {
+				"not-logged-without-activity the clients had stopped, no call was made for the quiet period, the process was killed: the directory misses commits".to_string()
+			} else {
+				"drop-lost-data after the handle was dropped a reopen does not show every commit".to_string()
+			});
 		}
 		let mut case = vec![5u64, commit_list.len() as u64];
 		for (v, ks) in &commit_list {
-			// duplicates inside a transaction: the specification takes the first pair of a commit, all carry the same value
 			let mut seen = Vec::new();
 			for k in ks {
 				if !seen.contains(k) {
@@ -205,21 +276,20 @@ pub fn main(args: &[String]) -> i32 {
 		out.case(&case);
 		out.obs(&final_versions);
 		*dist.entry("commits".into()).or_insert(0) += commit_list.len() as u64;
-		*dist.entry("MiB-committed".into()).or_insert(0) += bytes_total.load(Ordering::Relaxed) >> 20;
+		*dist.entry("MiB-committed".into()).or_insert(0) += bytes >> 20;
 		*dist.entry(format!("clients-{nclients}")).or_insert(0) += 1;
 		if huge {
 			*dist.entry("runs-with-a-transaction-above-the-queue-limit".into()).or_insert(0) += 1;
 		}
-		if bytes_total.load(Ordering::Relaxed) > (4 << 20) {
+		if bytes > (4 << 20) {
 			nontrivial += 1;
 		}
 		match verdict {
 			Ok(()) => oracle.push_str("ok\n"),
-			Err(e) => oracle.push_str(&format!("FAIL {e} [{} commits, {} clients]\n", commit_list.len(), nclients)),
+			Err(e) => oracle.push_str(&format!("FAIL {e} [{} commits, {} clients, kill mode {}]\n", commit_list.len(), nclients, kill_mode)),
 		}
 	}
 	let _ = std::fs::remove_dir_all(&dir);
-	let _ = std::fs::remove_dir_all(&img);
 	out.write_file("oracle.txt", &oracle);
 	let d: Vec<String> = dist.iter().map(|(k, v)| format!("{}: {}", crate::util::jstr(k), v)).collect();
 	out.write_file(
